@@ -190,6 +190,7 @@ func (m *mon) c04(hdr []int, tcp bool, evs []ev) {
 	exp := 0
 	reconnecting := false
 	dead := false
+	failing := false
 	var wantAcks []string
 	var accepted []string
 	for _, e := range evs {
@@ -198,6 +199,10 @@ func (m *mon) c04(hdr []int, tcp bool, evs []ev) {
 		}
 		if e.in && (e.kind == "close" || e.kind == "sockclose") {
 			dead = true
+		}
+		if e.in && e.kind == "sockfail" {
+			failing = len(e.f) > 0 && e.f[0] == "1" // the socket refuses to send: no acknowledgement can leave
+			continue
 		}
 		if !e.in || e.kind != "rx" {
 			continue
@@ -215,8 +220,10 @@ func (m *mon) c04(hdr []int, tcp bool, evs []ev) {
 			if seq == exp {
 				exp = (exp + 1) % 256
 				accepted = append(accepted, e.f[3])
-				wantAcks = append(wantAcks, fmt.Sprintf("%d %s %d", e.t, ch, seq))
-			} else if seq == (exp+255)%256 {
+				if !failing {
+					wantAcks = append(wantAcks, fmt.Sprintf("%d %s %d", e.t, ch, seq))
+				}
+			} else if seq == (exp+255)%256 && !failing {
 				wantAcks = append(wantAcks, fmt.Sprintf("%d %s %d", e.t, ch, seq))
 			}
 		case "dreq":
@@ -533,9 +540,11 @@ func runMonitors(prop, dir string) {
 		script, trace := so.Text(), st.Text()
 		n++
 		m.script = script
-		if strings.HasPrefix(script, "rrt ") || strings.HasPrefix(script, "ort ") {
+		if strings.HasPrefix(script, "rrt ") || strings.HasPrefix(script, "ort ") || strings.HasPrefix(script, "swrt ") {
 			if strings.HasPrefix(script, "rrt ") {
 				nobs += m.rrt(script, trace)
+			} else if strings.HasPrefix(script, "swrt ") {
+				nobs += m.swrt(script, trace)
 			} else {
 				nobs += m.ort(script, trace)
 			}
